@@ -13,6 +13,7 @@ package main
 // final diamond / split / bundle state; `amo` is the property's headline (at most one bundle).
 
 import (
+	"context"
 	"errors"
 	"fmt"
 	"os"
@@ -26,6 +27,7 @@ import (
 
 	"dvh/internal/c12store"
 	"dvh/internal/corekit"
+	"dvh/internal/crashstore"
 	"dvh/internal/tr"
 
 	context2 "github.com/oneconcern/datamon/pkg/context"
@@ -1101,6 +1103,173 @@ func c12(c *ctx) error {
 	}
 	if err := c12RandomFree(c, nf); err != nil {
 		return err
+	}
+	return c12Directed(c)
+}
+
+// c12Directed: two judged scenarios outside the scheduler.
+//   - pagecommit: k completed splits (and some running ones), committed with listing page size p: the
+//     bundle holds the files of EVERY completed split, of no running one, whatever p;
+//   - termfault: a committed / canceled diamond while ONE read of its descriptors fails transiently:
+//     no new split is accepted and no (further) bundle appears.
+func c12Directed(c *ctx) error {
+	rng := tr.NewRng(c.seed*31 + 12)
+	n := 40
+	if c.thorough() {
+		n = 400
+	}
+	mk := func(env *corekit.Env, did string, split int, files map[string][]byte, upload bool) error {
+		return corekit.Recover(func() error {
+			sp := core.NewSplit(c12Repo, did, env.Stores,
+				core.SplitDescriptor(model.NewSplitDescriptor(model.SplitID(c12SplitID(split)))),
+				core.SplitConsumableStore(corekit.TreeStore(files)), core.SplitLogger(corekit.Nop))
+			if _, e := core.CreateSplit(c12Repo, did, env.Stores, core.SplitDescriptor(&sp.SplitDescriptor), core.SplitLogger(corekit.Nop)); e != nil {
+				return e
+			}
+			if !upload {
+				return nil
+			}
+			return sp.Upload()
+		})
+	}
+	bundleFiles := func(env *corekit.Env) (int, map[string]bool, error) {
+		bs, err := core.ListBundles(c12Repo, env.Stores)
+		if err != nil {
+			return 0, nil, err
+		}
+		names := map[string]bool{}
+		for _, b := range bs {
+			mb := corekit.NewBundle(env.Stores, c12Repo, nil, 0, b.ID)
+			if e := corekit.Recover(func() error { return core.DownloadMetadata(context.Background(), mb) }); e != nil {
+				return len(bs), nil, e
+			}
+			for _, en := range mb.BundleEntries {
+				names[en.NameWithPath] = true
+			}
+		}
+		return len(bs), names, nil
+	}
+	for i := 0; i < n; i++ {
+		env := corekit.NewEnv()
+		if env.CreateRepo(c12Repo) != nil {
+			continue
+		}
+		dd, err := core.CreateDiamond(c12Repo, env.Stores)
+		if err != nil {
+			continue
+		}
+		k := 1 + rng.Intn(4)
+		running := rng.Intn(2)
+		want := map[string]bool{}
+		for sidx := 1; sidx <= k+running; sidx++ {
+			files := map[string][]byte{}
+			for f := 0; f < 1+rng.Intn(3); f++ {
+				name := fmt.Sprintf("s%d/f%d", sidx, f)
+				files[name] = []byte(fmt.Sprintf("%d-%d-%d", i, sidx, f))
+				if sidx <= k {
+					want[name] = true
+				}
+			}
+			if e := mk(env, dd.DiamondID, sidx, files, sidx <= k); e != nil {
+				return fmt.Errorf("c12 directed: split %d: %v", sidx, e)
+			}
+		}
+		page := []int{1, 2, 3, 4, 5, 8, 1024}[i%7]
+		c.w.Case("c12 directed pagecommit")
+		cerr := corekit.Recover(func() error {
+			d := core.NewDiamond(c12Repo, env.Stores, core.DiamondDescriptor(model.NewDiamondDescriptor(model.DiamondID(dd.DiamondID))),
+				core.DiamondLogger(corekit.Nop), core.DiamondMessage("c12 pages"))
+			return d.Commit(core.BatchSize(page))
+		})
+		got := "all"
+		if cerr != nil {
+			got = "err:" + c12Class(cerr)
+		} else if nb, names, e := bundleFiles(env); e != nil || nb != 1 {
+			got = fmt.Sprintf("bundles=%d", nb)
+		} else {
+			for name := range want {
+				if !names[name] {
+					got = "missing:" + name
+				}
+			}
+			for name := range names {
+				if !want[name] {
+					got = "extra:" + name
+				}
+			}
+		}
+		c.w.Op(fmt.Sprintf("pagecommit done=%d running=%d page=%d got=%s", k, running, page, got), "sound")
+		c.w.Count("directed=pagecommit")
+		c.w.End()
+		if cerr != nil {
+			continue
+		}
+		// ---- the diamond is terminated now (or make a canceled one): transient read faults
+		term := "committed"
+		tenv := env
+		if i%3 == 0 {
+			term = "canceled"
+			tenv = corekit.NewEnv()
+			if tenv.CreateRepo(c12Repo) != nil {
+				continue
+			}
+			d2, e := core.CreateDiamond(c12Repo, tenv.Stores)
+			if e != nil {
+				continue
+			}
+			if mk(tenv, d2.DiamondID, 1, map[string][]byte{"x": []byte("x")}, true) != nil {
+				continue
+			}
+			if corekit.Recover(func() error {
+				return core.NewDiamond(c12Repo, tenv.Stores, core.DiamondDescriptor(model.NewDiamondDescriptor(model.DiamondID(d2.DiamondID))), core.DiamondLogger(corekit.Nop)).Cancel()
+			}) != nil {
+				continue
+			}
+			dd = d2
+		}
+		before, _, _ := bundleFiles(tenv)
+		g := &crashstore.Group{FailReadOp: "get", FailReadKey: "diamond-done.yaml", FailReadAt: 1 + rng.Intn(2)}
+		fst := corekit.WithStores(tenv.Wal, tenv.ReadLog, tenv.Blob, crashstore.Wrap(g, "meta", tenv.Meta), crashstore.Wrap(g, "vmeta", tenv.VMeta))
+		action := []string{"split", "commit"}[i%2]
+		var aerr error
+		if action == "split" {
+			aerr = corekit.Recover(func() error {
+				sp := core.NewSplit(c12Repo, dd.DiamondID, fst,
+					core.SplitDescriptor(model.NewSplitDescriptor(model.SplitID(c12SplitID(9)))),
+					core.SplitConsumableStore(corekit.TreeStore(map[string][]byte{"late": []byte("late")})), core.SplitLogger(corekit.Nop))
+				if _, e := core.CreateSplit(c12Repo, dd.DiamondID, fst, core.SplitDescriptor(&sp.SplitDescriptor), core.SplitLogger(corekit.Nop)); e != nil {
+					return e
+				}
+				return sp.Upload()
+			})
+		} else {
+			aerr = corekit.Recover(func() error {
+				return core.NewDiamond(c12Repo, fst, core.DiamondDescriptor(model.NewDiamondDescriptor(model.DiamondID(dd.DiamondID))),
+					core.DiamondLogger(corekit.Nop), core.DiamondMessage("late")).Commit()
+			})
+		}
+		after, _, _ := bundleFiles(tenv)
+		lateSplit := false
+		for _, key := range tenv.VMeta.SortedKeys() {
+			if strings.Contains(key, "/splits/"+c12SplitID(9)+"/") {
+				lateSplit = true
+			}
+		}
+		got = "refused"
+		switch {
+		case after != before:
+			got = fmt.Sprintf("bundles:%d->%d", before, after)
+		case lateSplit:
+			got = "late-split-accepted"
+		case aerr == nil:
+			got = "returned-ok"
+		}
+		if g.Reads() >= g.FailReadAt {
+			c.w.Case("c12 directed termfault")
+			c.w.Op(fmt.Sprintf("termfault diamond=%s action=%s at=%d got=%s", term, action, g.FailReadAt, got), "sound")
+			c.w.Count("directed=termfault-" + term)
+			c.w.End()
+		}
 	}
 	return nil
 }
